@@ -7,7 +7,7 @@ from gen import SeqGen, dyadic
 ID = "C06"
 HEAP_SUMMARY = True      # end every program with the reference-level observation (BB.Model.Heap vs id() walk)
 LEAN_MODULE = "BB.Properties.C06"
-QUICK_N = 300
+QUICK_N = 600
 THOROUGH_N = 6000
 ERRCLASS = True      # the property names ElementDurationError
 RULE = ("elements of 1-6 channels (int and str ids) mixing blueprints and raw arrays; in 55% of the cases one channel deviates in "
